@@ -198,9 +198,10 @@ for n in (0, 1, 2, 3):
 # ------------------------------------------------------------------ buffer.c: the remaining registered C functions
 ALLOC = ("realloc model (seq_common.h): fails or returns a fresh block of n bytes, frees the old block, "
          "keeps the element at the ghost index; all other content arbitrary")
+ALLOC2 = ALLOC.replace("the element at the ghost index", "the elements at the two ghost indices").replace("(seq_common.h)", "(lib_buffer.c, copy of the seq_common.h model)")
 B = dict(src=["buffer.c"], link=["wrap.c"], harness=["lib_buffer.c"], defines=["-DSEQ_ELEM_BYTES", "-DSEQ_TRACK_REALLOC"],
-         replace_calls=["memcpy:lib_memcpy"], unwindset={"lib_memcpy.0": 9}, props=["C17", "C04"])
-BA = [ALLOC, "memcpy model (seq_common.h; copies of at most 8 bytes are carried out exactly): ranges valid and disjoint - counted obligations; pointwise effect on the ghost byte",
+         replace_calls=["memcpy:lib_memcpy", "realloc:lib_realloc"], unwindset={"lib_memcpy.0": 9}, props=["C17", "C04"])
+BA = [ALLOC2, "memcpy model (seq_common.h; copies of at most 8 bytes are carried out exactly): ranges valid and disjoint - counted obligations; pointwise effect on the ghost byte",
       "capi.c getters are stubs: slot 0 is a well-formed buffer; integer / unsigned getters return the slot's low 16 / 32 / 64 bits (arbitrary but fixed per slot), janet_getnumber the slot's double; a byte-sequence slot is the buffer itself or a separate readable block; each asserts slot index < argc; janet_arity/janet_fixarity return only for an accepted argc",
       "janet_gcalloc returns a fresh block; janet_gcpressure has no effect on the buffer"]
 ORDER = "janet_getkeyword / janet_cstrcmp stubs: the order argument is :le, :be, :native or another keyword; janet_cstrcmp asserts it is asked about the literals \"le\", \"be\", \"native\"; configuration is little endian (JANET_LITTLE_ENDIAN)"
@@ -248,6 +249,7 @@ unit("lib.buffer.frombytes", "buffer/from-bytes, every argument count: every arg
      mutants=[mut("count-not-set", "buffer.c", "        buffer->data[i] = c & 0xFF;\n    }\n    buffer->count = argc;", "        buffer->data[i] = c & 0xFF;\n    }", "postcondition"),
               mut("loop-one-too-far", "buffer.c", "    for (i = 0; i < argc; i++) {\n        int32_t c = janet_getinteger(argv, i);\n        buffer->data[i] = c & 0xFF;", "    for (i = 0; i <= argc; i++) {\n        int32_t c = janet_getinteger(argv, i);\n        buffer->data[i] = c & 0xFF;", "slot index|loop_invariant|assigns|pointer")])
 PB = dict(B, defines=B["defines"] + ["-DLIB_MAXARGC=4"], cbmc=["--sat-solver", "cadical"])
+PW = dict(PB, defines=B["defines"] + ["-DLIB_MAXARGC=3"])
 unit("lib.buffer.push_byte", "buffer/push-byte, every buffer size: arity >= 1; appends the low byte of every x in order (each fetched as an integer, slot index below argc); prefix unchanged; raises instead of exceeding INT32_MAX; foreign memory never reallocated; returns buffer",
      "h_buffer_u8", cf("cfun_buffer_u8"), cls="bounded", bound="at most 3 pushed values (argc <= 4, the argument loop reallocates and is unwound); buffer size unbounded",
      assumes=BA, **dict(PB, unwindset=dict(B["unwindset"], **{W("cfun_buffer_u8") + ".0": 5})), functions=["cfun_buffer_u8", "janet_buffer_push_u8", "janet_buffer_extra"],
@@ -256,13 +258,13 @@ unit("lib.buffer.push_byte", "buffer/push-byte, every buffer size: arity >= 1; a
 WORD_M = [mut("range-check-dropped", "buffer.c", "        if (word != number)\n            janet_panicf(\"cannot convert %v to machine word\", argv[i]);\n", "", "postcondition"),
           mut("pushes-16-bits", "buffer.c", "        janet_buffer_push_u32(buffer, word);", "        janet_buffer_push_u16(buffer, word);", "postcondition|conversion")]
 unit("lib.buffer.push_word", "buffer/push-word, every buffer size: arity >= 1; every x must be a number equal to an integer in [0, 2^32) (else raises); appends its 4 bytes least significant first, in argument order; prefix unchanged; raises instead of exceeding INT32_MAX; foreign memory never reallocated; returns buffer",
-     "h_buffer_word", cf("cfun_buffer_word"), cls="bounded", bound="at most 3 pushed values (argc <= 4, the argument loop reallocates and is unwound); buffer size unbounded",
+     "h_buffer_word", cf("cfun_buffer_word"), cls="bounded", bound="at most 2 pushed values (argc <= 3, the argument loop reallocates and is unwound); buffer size unbounded", tier="thorough", timeout=300,
      assumes=BA + ["domain restriction -1 < x < 2^32 for numeric arguments: outside it (and for NaN) the conversion (uint32_t) x is undefined (unit lib.buffer.push_word.anydouble keeps that obligation)"],
-     **dict(PB, unwindset=dict(B["unwindset"], **{W("cfun_buffer_word") + ".0": 5})), functions=["cfun_buffer_word", "janet_buffer_push_u32", "janet_buffer_extra"], mutants=WORD_M)
+     **dict(PW, unwindset=dict(B["unwindset"], **{W("cfun_buffer_word") + ".0": 5})), functions=["cfun_buffer_word", "janet_buffer_push_u32", "janet_buffer_extra"], mutants=WORD_M)
 unit("lib.buffer.push_word.anydouble", "buffer/push-word, ALL numbers incl. negative ones, NaN, infinities and values >= 2^32: the double -> uint32 conversion is defined",
-     "h_buffer_word", cf("cfun_buffer_word"), cls="bounded", bound="at most 3 pushed values", tier="thorough",
+     "h_buffer_word", cf("cfun_buffer_word"), cls="bounded", bound="at most 2 pushed values", tier="thorough",
      disabled_reason="fails on the pinned tree (cfun_buffer_word overflow obligation on `(uint32_t) number`): undefined by C99 6.3.1.4 for NaN and values outside (-1, 2^32); on x86-64 / AArch64 the converted value differs from the argument, so `word != number` raises 'cannot convert ... to machine word' as documented - (buffer/push-word @\"\" -1), 4294967296, math/nan all raise; no observable misbehaviour",
-     assumes=BA, **dict(PB, defines=PB["defines"] + ["-DLIB_WORD_ANY_DOUBLE"], unwindset=dict(B["unwindset"], **{W("cfun_buffer_word") + ".0": 5})), mutants=WORD_M[:1])
+     assumes=BA, **dict(PW, defines=PW["defines"] + ["-DLIB_WORD_ANY_DOUBLE"], unwindset=dict(B["unwindset"], **{W("cfun_buffer_word") + ".0": 5})), mutants=WORD_M[:1])
 PS = dict(B, cbmc=["--sat-solver", "cadical"])
 PUSHB = "at most 2 pushed arguments (argc <= 3, the argument loop reallocates and is unwound); buffer size and byte-sequence length unbounded"
 SELFDOM = "domain restriction: the buffer is pushed onto itself only while shorter than 1 GiB (`buffer->count + view.len` overflows int32 otherwise; units str.cfun.buffer.push_at.selfhuge / lib.buffer.push_string.selfhuge)"
@@ -285,6 +287,73 @@ unit("lib.buffer.push", "buffer/push, every buffer size: arity >= 1; a number pu
      mutants=[mut("starts-at-slot-0", "buffer.c", "    buffer_push_impl(buffer, argv, 1, argc);\n    return argv[0];", "    buffer_push_impl(buffer, argv, 0, argc);\n    return argv[0];", "postcondition|byte view requested|unwind"),
               mut("stale-view-after-growth", "buffer.c", "                janet_buffer_ensure(buffer, buffer->count + view.len, 2);\n                view.bytes = buffer->data;\n            }\n            janet_buffer_push_bytes(buffer, view.bytes, view.len);\n        }\n    }\n}",
                   "                janet_buffer_ensure(buffer, buffer->count + view.len, 2);\n            }\n            janet_buffer_push_bytes(buffer, view.bytes, view.len);\n        }\n    }\n}", "memcpy model|pointer|postcondition|deallocated")])
+
+# ------------------------------------------------------------------ array.c: the remaining registered C functions
+A = dict(src=["array.c"], link=["wrap.c", "util.c"], link_keep={"util.c": ["safe_memcpy"]}, harness=["lib_array.c"], object_bits=7,
+         replace_calls=["realloc:lib_realloc_j"], props=["C04", "C17"])
+ALLOCJ = "realloc model (lib_array.c, copy of the seq_common.h model): fails or returns a fresh block of n bytes, frees the old block, keeps the elements at the two ghost indices; all other content arbitrary"
+AA = [ALLOCJ, "memcpy model (seq_common.h): ranges valid and disjoint - counted obligations; pointwise effect on the ghost element",
+      "capi.c getters are stubs: slot 0 is a well-formed array (array/slice: any readable indexed view), integer slots return the slot's low 32 bits (janet_getnat only when >= 0), each asserts slot index < argc; janet_arity/janet_fixarity return only for an accepted argc",
+      "janet_gcalloc returns a fresh block; malloc does not fail (CBMC default)"]
+NEG = "fails on the pinned tree (postcondition 'well-formed': capacity >= 0): %s stores a negative capacity as is, so the new array has capacity < 0 <= count; harmless in practice (the first push reallocates; array/trim resets it; only the GC pressure accounting is off by |capacity| * 8) - (%s -5) returns @[] instead of raising for the out-of-range argument"
+for nm, lisp, mt in [("new", "array/new", "JANET_MEMORY_ARRAY"), ("weak", "array/weak", "JANET_MEMORY_ARRAY_WEAK")]:
+    fn = "cfun_array_" + nm
+    m = [mut("block-of-half-size", "array.c", "        data = (Janet *) janet_malloc(sizeof(Janet) * (size_t) capacity);", "        data = (Janet *) janet_malloc(sizeof(Janet) * (size_t) capacity / 2);", "postcondition")] + \
+        ([mut("weak-allocated-as-strong", "array.c", "JanetArray *array = janet_gcalloc(JANET_MEMORY_ARRAY_WEAK, sizeof(JanetArray));", "JanetArray *array = janet_gcalloc(JANET_MEMORY_ARRAY, sizeof(JanetArray));", "postcondition")] if nm == "weak" else [])
+    unit("lib.array." + nm, "%s, every capacity >= 0: arity 1; returns a NEW well-formed empty array (%s) whose block has room for exactly capacity elements (no block for 0)" % (lisp, mt),
+         "h_array_" + nm, cf(fn), assumes=AA + ["domain restriction capacity >= 0 (unit lib.array.%s.negative keeps the obligation for negative arguments)" % nm], mutants=m, **A)
+    unit("lib.array.%s.negative" % nm, "%s, ALL capacity arguments: the result is a well-formed array (0 <= count <= capacity) or the call raises" % lisp,
+         "h_array_" + nm, cf(fn), tier="thorough", disabled_reason=NEG % ("janet_array_impl", lisp), assumes=AA, mutants=m[:1], **dict(A, defines=["-DLIB_NEW_ANY_CAPACITY"]))
+fn = "cfun_array_new_filled"
+NF_L = {fn: [loop("i >= 0 && i <= count && ((g_idx >= 0 && g_idx < i) ==> array->data[g_idx].u64 == x.u64)", "i, __CPROVER_object_whole(array->data)", "count - i",
+                  smap(fn, i="1::1::i", count="1::count", array="1::array", x="1::x"))]}
+NF_M = [mut("fills-one-less", "array.c", "    for (int32_t i = 0; i < count; i++) {\n        array->data[i] = x;\n    }\n    array->count = count;", "    for (int32_t i = 1; i < count; i++) {\n        array->data[i] = x;\n    }\n    array->count = count;", "loop_invariant|postcondition"),
+        mut("fills-one-more", "array.c", "    for (int32_t i = 0; i < count; i++) {\n        array->data[i] = x;\n    }\n    array->count = count;", "    for (int32_t i = 0; i <= count; i++) {\n        array->data[i] = x;\n    }\n    array->count = count;", "pointer_dereference|loop_invariant|assigns")]
+unit("lib.array.new_filled", "array/new-filled, every count > 0: arity 1..2; raises for a negative count; returns a NEW well-formed array of exactly count elements, every element == value (default nil); writes inside the new block",
+     "h_array_new_filled", cf(fn), assumes=AA, loops=NF_L, loop_counts={fn: 1}, mutants=NF_M, **dict(A, defines=["-DLIB_COUNT_POS"]))
+unit("lib.array.new_filled.empty", "array/new-filled with count <= 0: raises for a negative count; count 0 returns a NEW empty array without block, nothing written",
+     "h_array_new_filled", cf(fn), assumes=AA, cls="bounded", bound="count <= 0 (the fill loop does not iterate)", unwindset={W(fn) + ".0": 2},
+     mutants=[mut("count-not-set", "array.c", "        array->data[i] = x;\n    }\n    array->count = count;\n    return janet_wrap_array(array);", "        array->data[i] = x;\n    }\n    array->count = count + 1;\n    return janet_wrap_array(array);", "postcondition")], **A)
+fn = "cfun_array_fill"
+unit("lib.array.fill", "array/fill, every array with a block: arity 1..2; every element becomes value (default nil); length, capacity and block unchanged; writes inside the block; returns arr",
+     "h_array_fill", cf(fn), assumes=AA, loop_counts={fn: 1}, **dict(A, defines=["-DLIB_COUNT_POS"]),
+     loops={fn: [loop("i >= 0 && i <= array->count && ((g_idx >= 0 && g_idx < i) ==> array->data[g_idx].u64 == x.u64)", "i, __CPROVER_object_whole(array->data)", "array->count - i",
+                      smap(fn, i="1::1::i", array="1::array", x="1::x"))]},
+     mutants=[mut("fills-capacity", "array.c", "    for (int32_t i = 0; i < array->count; i++) {\n        array->data[i] = x;\n    }\n    return argv[0];", "    for (int32_t i = 0; i <= array->capacity; i++) {\n        array->data[i] = x;\n    }\n    return argv[0];", "pointer_dereference|loop_invariant|assigns"),
+              mut("ignores-value", "array.c", "    JanetArray *array = janet_getarray(argv, 0);\n    Janet x = (argc == 2) ? argv[1] : janet_wrap_nil();", "    JanetArray *array = janet_getarray(argv, 0);\n    Janet x = janet_wrap_nil();", "postcondition")])
+unit("lib.array.fill.noblock", "array/fill on an array without block (capacity 0): nothing is written, returns arr",
+     "h_array_fill", cf(fn), assumes=AA, cls="bounded", bound="capacity 0 (the fill loop does not iterate)", unwindset={W(fn) + ".0": 2},
+     mutants=[mut("fills-capacity", "array.c", "    for (int32_t i = 0; i < array->count; i++) {\n        array->data[i] = x;\n    }\n    return argv[0];", "    for (int32_t i = 0; i <= array->capacity; i++) {\n        array->data[i] = x;\n    }\n    return argv[0];", "pointer_dereference|assigns|unwind")], **A)
+unit("lib.array.slice", "array/slice: arity 1..3; returns a NEW well-formed array holding exactly items[start, end) of the array or tuple (range decoding: janet_getslice), memcpy inside both blocks; the source is not modified",
+     "h_array_slice", cf("cfun_array_slice"), assumes=AA + ["janet_getslice replaced by its contract (proved in seq.capi.getslice): 0 <= start <= end <= length of slot 0",
+                                                          "domain restriction argc >= 1 (argv[0] is read before the arity check; recorded in lib.string.slice.argc0 / str.cfun.buffer.slice.argc0)"], **A,
+     mutants=[mut("copy-from-start", "array.c", "memcpy(array->data, view.items + range.start, sizeof(Janet) * (range.end - range.start));", "memcpy(array->data, view.items, sizeof(Janet) * (range.end - range.start));", "postcondition"),
+              mut("copy-end-elements", "array.c", "memcpy(array->data, view.items + range.start, sizeof(Janet) * (range.end - range.start));", "memcpy(array->data, view.items + range.start, sizeof(Janet) * (range.end));", "memcpy model|assigns")])
+
+CC = dict(mode="plain", src=["array.c"], link=["wrap.c", "util.c"], link_keep={"util.c": ["safe_memcpy"]}, harness=["lib_array_concat.c"], props=["C04", "C17"],
+          replace_calls=["janet_array_push:janet_array_push_stub", "janet_array_ensure:janet_array_ensure_stub"], defines=["-DLIB_MAXPART=2", "-DLIB_BLOCK=40", "-DLIB_MAXCAP=8"], unwind=4, cbmc=["--sat-solver", "cadical"])
+CCB = "at most 2 parts of at most 2 elements each (a part that is the array itself: the array then has at most 2 elements; the element loops are unwound); destination array of capacity 0..8, every length 0..capacity (all blocks allocated with a constant size of 40 elements, logical capacity tracked by the models)"
+CCA = ["janet_array_push / janet_array_ensure replaced by asserting models of their contracts (units seq.array.push, seq.array.ensure): ensure does nothing for capacity <= current capacity, else REPLACES the block (old block freed, elements at the two ghost positions kept); push raises at INT32_MAX elements, grows when full, stores x",
+       "janet_indexed_view is a pure function of the value: a slot with the bits of slot 0 is the array itself (current data / count), any other array or tuple slot yields a separate readable view of 0..2 elements",
+       "janet_getarray: slot 0 is a well-formed array of any size; janet_arity returns only for an accepted argc"]
+M_STALE = lambda which: mut("stale-view-after-reservation", "array.c",
+    "                    janet_array_ensure(array, newcount, 2);\n                    janet_indexed_view(argv[i], &vals, &len);\n                }" if which == "concat" else "            janet_array_ensure(array, newcount, 2);\n            janet_indexed_view(argv[i], &vals, &len);\n        }",
+    "                    janet_array_ensure(array, newcount, 2);\n                }" if which == "concat" else "            janet_array_ensure(array, newcount, 2);\n        }", "pointer_dereference|C17|deallocated")
+M_NORES = mut("self-concat-not-reserved", "array.c", "                if (array->data == vals) {\n                    int32_t newcount = array->count + len;\n                    janet_array_ensure(array, newcount, 2);\n                    janet_indexed_view(argv[i], &vals, &len);\n                }\n", "", "pointer_dereference|C17|deallocated")
+unit("lib.array.concat", "array/concat: arity >= 1; array and tuple parts contribute their elements in order - the array itself its elements at that moment (the source view is re-fetched after the reservation: no read through a stale block) - any other part is appended as one element; exact new length; elements already present unchanged; returns arr",
+     "h_array_concat", cls="bounded", bound=CCB, assumes=CCA, functions=["cfun_array_concat"], mutants=[M_STALE("concat"), M_NORES], **CC)
+unit("lib.array.join", "array/join: arity >= 1; every part must be an array or tuple (else raises) and contributes its elements in order - the array itself its elements at that moment (view re-fetched after the reservation); exact new length; elements already present unchanged; returns arr",
+     "h_array_join", cls="bounded", bound=CCB, assumes=CCA, functions=["cfun_array_join"],
+     mutants=[M_STALE("join"),
+              mut("type-check-dropped", "array.c", "        if (!janet_indexed_view(argv[i], &vals, &len)) {\n            janet_panicf(\"expected indexed type for argument %d, got %v\", i, argv[i]);\n        }\n        if (array->data == vals) {", "        janet_indexed_view(argv[i], &vals, &len);\n        if (array->data == vals) {", "C17")], **CC)
+SELF_DEFECT = ("GENUINE DEFECT on the pinned tree (%s overflow obligation on `array->count + len`, then pointer_dereference 'deallocated dynamic object' on vals[j]): for an array of >= 2^30 elements appended to itself the int32 sum wraps negative, "
+               "janet_array_ensure returns without reserving, the first janet_array_push reallocates the block and the loop keeps reading the old one (use after free). Reproduced: /repo/_build/janet -e '(def a (array/new-filled 1073741824 0)) (%s a a)' "
+               "-> Segmentation fault (needs ~8 GiB of memory). Repair: compute count + len in int64 and raise 'array overflow' above INT32_MAX before the reservation")
+for nm, lisp, dfn in [("concat", "array/concat", []), ("join", "array/join", ["-DLIB_JOIN"])]:
+    unit("lib.array.%s.self-any-size" % nm, "%s of an array with itself, ALL sizes: the reservation length `count + len` is computed without int32 overflow and the element view read in the copy loop is live" % lisp,
+         "h_array_concat_self", cls="bounded", bound="first 2 element copies only (copy loop cut without unwinding assertion); array size unbounded", tier="thorough",
+         unwinding_assertions=False, disabled_reason=SELF_DEFECT % ("cfun_array_" + nm, lisp), assumes=CCA, functions=["cfun_array_" + nm],
+         mutants=[M_NORES if nm == "concat" else M_STALE("join")], **dict(CC, defines=["-DLIB_MAXPART=2"] + dfn, unwind=3))
 json.dump({"defaults": {"props": ["C17"], "mode": "dfcc", "timeout": 120, "object_bits": 8, "checks": CHECKS}, "units": units},
           open(os.path.join(V, "units", "C17_lib.json"), "w"), indent=1)
 print(len(units), "units")
